@@ -330,6 +330,20 @@ func (in *interp) exec(s Stmt, sc *Scope, fr *frame) ctl {
 		}
 		return ctlNone
 
+	case SetElem:
+		v, c := in.eval(s.Val, sc, fr)
+		if c != ctlNone {
+			return c
+		}
+		if vs := sc.find(s.Name); vs != nil {
+			if l, ok := vs.vars[s.Name].(*ListV); ok && s.I >= 0 && s.I < len(l.Elems) {
+				l.Elems[s.I] = v
+				return ctlNone
+			}
+		}
+		in.undetermined("element store outside what the IR defines")
+		return ctlNone
+
 	case VarDecl:
 		vals, c := in.evalAll(s.Vals, sc, fr)
 		if c != ctlNone {
@@ -894,6 +908,14 @@ func (in *interp) eval(e Expr, sc *Scope, fr *frame) (Value, ctl) {
 			return s.vars[e.Name], ctlNone
 		}
 		return nil, in.throwAny() // undefined name: a runtime error
+	case Elem:
+		if s := sc.find(e.Name); s != nil {
+			if l, ok := s.vars[e.Name].(*ListV); ok && e.I >= 0 && e.I < len(l.Elems) {
+				return l.Elems[e.I], ctlNone
+			}
+		}
+		in.undetermined("element read outside what the IR defines")
+		return nil, ctlNone
 	case Member:
 		x, c := in.eval(e.X, sc, fr)
 		if c != ctlNone {
